@@ -845,6 +845,11 @@ func Compare(refTree *Tree, compTrees <-chan Trees, tips, comparetreeidentical b
 									common++
 								}
 							}
+							// The trees are identical only if, in addition, all the
+							// bipartitions of the reference tree are in the compared tree
+							if sametree && total != common {
+								sametree = false
+							}
 						}
 					}
 				}
